@@ -38,7 +38,7 @@ type TxMutCase struct {
 }
 
 var baseNames = []string{"NewBlockHashes", "NewPubkey", "ProcessWithdrawal", "ReplaceWithdrawal", "NewConsolidation", "NewDeposits",
-	"FinalizeWithdrawal", "ApproveCancellation", "NewVoter", "AcceptProposer", "NewEthBlock"}
+	"FinalizeWithdrawal", "ApproveCancellation", "NewVoter", "AcceptProposer", "NewEthBlock", "rolled-back-registration"}
 
 func garbage(n int, seed int) []byte {
 	out := make([]byte, n)
@@ -315,6 +315,63 @@ func runTxMutCase(c TxMutCase) Outcome {
 			return o
 		}
 		base := abs(tm.Base) % len(baseNames)
+		if base == 11 {
+			// one transaction registers a new bridge key twice (two genuine votes, consecutive sequences): the second
+			// message fails ("already exists"), so the whole transaction fails and the first registration is void.
+			// Afterwards the same registration, alone, must be accepted.
+			body := f.bodyPubkey()
+			m1, err1 := f.honestMsg(body, rv)
+			rv2 := rv
+			rv2.Sequence++
+			m2, err2 := f.honestMsg(body, rv2)
+			if err1 != nil || err2 != nil {
+				o.Fail = failf("fixture", "vote-build-failed", "%v %v", err1, err2)
+				return o
+			}
+			raw, err := sim.Node.Tx(relProp, 0, world.TxOpts{}, m1, m2)
+			if err != nil {
+				o.Fail = failf("fixture", "tx-build-failed", "%v", err)
+				return o
+			}
+			where := fmt.Sprintf("tx %d (two registrations of one key in one transaction)", ti)
+			tw, err := sim.ExecTwin(blk, ethTxs, append(append([][]byte{}, ethTxs...), raw))
+			if err != nil {
+				o.Fail = failf("blocks-never-fail", "block-failed-on-malformed-tx", "%s: %v", where, err)
+				return o
+			}
+			if res := tw.With.TxResults[len(tw.With.TxResults)-1]; res.Code == 0 {
+				o.Fail = failf("failed-changes-nothing", "double-registration-accepted", "%s: accepted", where)
+				return o
+			}
+			if tw.DumpWith.Hash() != tw.DumpWithout.Hash() {
+				o.Fail = failf("failed-changes-nothing", "failed-transaction-changed-state", "%s: module state differs from the block without it: %v", where, tw.DumpWith.Diff(tw.DumpWithout))
+				return o
+			}
+			m3, err := f.honestMsg(body, rv)
+			if err != nil {
+				o.Fail = failf("fixture", "vote-build-failed", "%v", err)
+				return o
+			}
+			raw3, err := sim.Node.Tx(relProp, 0, world.TxOpts{}, m3)
+			if err != nil {
+				o.Fail = failf("fixture", "tx-build-failed", "%v", err)
+				return o
+			}
+			r, err := sim.Step(world.StepOpts{DT: time.Second, Proposer: -1, Txs: [][]byte{raw3}})
+			if err != nil {
+				o.Fail = failf("blocks-never-fail", "block-failed-after-malformed-input", "%s: %v", where, err)
+				return o
+			}
+			if res := r.Resp.TxResults[1]; res.Code != 0 {
+				o.Fail = failf("failed-changes-nothing", "failed-transaction-affects-later-ones", "%s: after the failed transaction the same registration, alone, is refused: %s", where, res.Log)
+				return o
+			}
+			f.consume(body)
+			o.Classes = append(o.Classes, "rolled-back-registration")
+			o.NonTrivial = true
+			o.Evals++
+			continue
+		}
 		var msg sdk.Msg
 		signer := relProp
 		opts := world.TxOpts{}
@@ -475,7 +532,7 @@ func TestC19_TxMutation(t *testing.T) {
 			return c
 		},
 		Run:  runTxMutCase,
-		Rule: "on a live chain with pending and processing withdrawals: a well-formed message of each of the 11 relayer/bridge/block message types receives one structural mutation (nil vote / key / payload, bitmap lengths 1..255, signature lengths 0..96, nil and mis-sized list elements, over-long lists, garbage Bitcoin transactions and headers, mis-sized hashes and addresses, extreme integers, malformed request lists, count byte 255, due system transactions dropped / the list cut below the count byte while refunds are due) and/or a byte-level mutation of the signed transaction (truncate, bit flip, append, random bytes, repeated chunk) and is delivered through CheckTx, ProcessProposal (as a later and as the first transaction) or FinalizeBlock; the process must stay alive (write-ahead case file), every call must return, FinalizeBlock must not fail in that block nor in the following ones, and a transaction with a non-zero code must leave the four module stores identical to the twin execution without it; non-trivial = the input passed decoding and reached a handler (or was applied); evaluations count inputs",
+		Rule: "on a live chain with pending and processing withdrawals: a well-formed message of each of the 11 relayer/bridge/block message types receives one structural mutation (nil vote / key / payload, bitmap lengths 1..255, signature lengths 0..96, nil and mis-sized list elements, over-long lists, garbage Bitcoin transactions and headers, mis-sized hashes and addresses, extreme integers, malformed request lists, count byte 255, due system transactions dropped / the list cut below the count byte while refunds are due) and/or a byte-level mutation of the signed transaction (truncate, bit flip, append, random bytes, repeated chunk) and is delivered through CheckTx, ProcessProposal (as a later and as the first transaction) or FinalizeBlock; the process must stay alive (write-ahead case file), every call must return, FinalizeBlock must not fail in that block nor in the following ones, and a transaction with a non-zero code must leave the four module stores identical to the twin execution without it; non-trivial = the input passed decoding and reached a handler (or was applied); evaluations count inputs; one more input kind registers a fresh bridge key twice in one transaction (the second message fails, so the transaction fails as a whole) and then requires the same registration, alone, to be accepted",
 	})
 }
 
